@@ -1,12 +1,13 @@
 ----------------------------- MODULE CmdProto -----------------------------
 (* Design model of the temp-file protocol of minify's command minifier (AddCmd / AddCmdRegexp,
-   minify.go cmdMinifier.Minify), used by C15 to explain its known finding and to check the
-   proposed patch at design level.
+   minify.go cmdMinifier.Minify).  CmdProto.cfg (Shared = FALSE) is the protocol of the code since
+   fix fd040d4: the argument vector is copied per call.  CmdProto_shared.cfg (Shared = TRUE) is the
+   earlier, wrong design (vector shared with the registered command); TLC must find it violating
+   EachCallOwnInput - it is kept as the vacuity guard of that invariant.
 
    A registered command has an argument vector in which "$in" / "$out" stand for temp files.
-   Every call   copies the exec.Cmd struct (a shallow copy: with Shared = TRUE the argument
-                vector of the copy IS the registered one, as in the code; with Shared = FALSE
-                the vector is copied first, which is the proposed patch),
+   Every call   copies the exec.Cmd struct and (Shared = FALSE) its argument vector; with Shared = TRUE
+                the vector of the copy IS the registered one (the defect fixed by fd040d4),
                 replaces "$in" by a fresh input file holding the call's input (else the input goes
                 to stdin) and "$out" by a fresh output file (else stdout is the writer),
                 runs the command (`cat`: copies the named input file, or stdin, to the named output
@@ -14,7 +15,7 @@
    Property     every call returns its own input (EachCallOwnInput), for any number of calls. *)
 EXTENDS Integers, Sequences, TLC
 
-CONSTANTS Shared,      \* TRUE: the code as it is; FALSE: argument vector copied per call
+CONSTANTS Shared,      \* FALSE: argument vector copied per call (the code); TRUE: shared vector (wrong design, guard)
           Forms,       \* argument vectors explored: sequences over {ArgIn, ArgOut, ArgLit} ("$in", "$out", any other
                        \* argument), each marker at most once
           MaxCalls
